@@ -76,5 +76,8 @@ TGvarRead ==
           IN /\ dy.next <= st + Ev.sizes[t]
              /\ Len(rd) = cnt
              /\ \A i \in 1..cnt : rd[i] = <<(IF pp.all THEN i - 1 ELSE pp.pts[i]), dx.vals[i], dy.vals[i]>>
-TraceSpec == TInit /\ [][TPackedDeltas \/ TPackedPoints \/ TIup \/ TGvar \/ TTupleScalar \/ TGvarRead]_l
+\* a gvar with more candidate shared peak tuples than a 12-bit tuple index can name: no tuple reads back with another peak or
+\* delta (compared by the recorder), and the shared list stays within what an index can name
+TGvarBigPeaks == IsEvent("gvar_bigpeaks") /\ Ev.wrong = 0 /\ Ev.shared <= 4096
+TraceSpec == TInit /\ [][TPackedDeltas \/ TPackedPoints \/ TIup \/ TGvar \/ TTupleScalar \/ TGvarRead \/ TGvarBigPeaks]_l
 =============================================================================
